@@ -41,9 +41,14 @@ def graph_ops(case):
     v = case["version"]
     if not all(supported_add(l) for l in case["lines"]):
         return [], []
+    # segments, then edges, then paths and groups: no placeholder is ever created, so the order of the links on a segment
+    # end (which decides the distribution windows) is the order of the lines the model is given.  (A placeholder link
+    # that is replaced keeps its place on the segment end but not in the registry: the model cannot know that order.)
+    rank = {"S": 0, "L": 1, "C": 1, "E": 1, "G": 1, "F": 1}
+    ordered = sorted(case["lines"], key=lambda l: rank.get(l.split("\t")[0], 2))
     try:
         g = gfapy.Gfa(version=v, vlevel=1)
-        for l in case["lines"]:
+        for l in ordered:
             g.add_line(l)
     except gfapy.Error:
         return [], []
